@@ -250,7 +250,11 @@ def gen_twin(rng, tid):
             npolls += 1
     t.has_early = rng.random() < 0.4
     if t.has_early:
-        body.append(f"if acc.rem_euclid(3) == 0 {{ fx({tid * 10 + 3}); return {early_val}; }}")
+        if rng.random() < 0.5:
+            body.append(f"if acc.rem_euclid(3) == 0 {{ fx({tid * 10 + 3}); return {early_val}; }}")
+        else:
+            # the early exit hides its `return` in a statement-position macro
+            body.append(f"if acc.rem_euclid(3) == 0 {{ fx({tid * 10 + 3}); crate::bail_with!({early_val}); }}")
     t.has_q = is_result and rng.random() < 0.5
     if t.has_q:
         body.append("let v = helper(acc)?;")
